@@ -119,7 +119,7 @@ def loop_witness(f, b, cfg, head, body, taint):
         if t["k"] == "switch":
             dl = F.op_local(t["discr"])
             if dl is not None:
-                cond_locals |= {x for x in taint.ancestors(b, dl) if isinstance(x, int)}
+                cond_locals |= {x for x in taint.ancestors(b, dl, True) if isinstance(x, int)}
     adv = []
     for i, j, s in F.stmts(b):
         if i in body and s[0] == "assign" and len(s[1]) == 1 and s[1][0] in cond_locals and s[2][0] == "use":
